@@ -1,6 +1,7 @@
 """./check configuration for C02 (see verif_props.py)."""
 
 PROP = {'module': 'GolibsVerif.Theorems.C02',
+ 'modules': ['GolibsVerif.Theorems.C02', 'GolibsVerif.Theorems.C02IP'],
  'namespace': 'GolibsVerif.C02',
  'rule': 'IP texts from a shape grammar (0-9 fields x ellipsis position x IPv4 tail x zone x brackets x port digits) with byte mutations; '
          'every string over {0,1,9,a,f,g,:,.,%,[,]} up to length 3 (quick) / 4 (thorough) through model AND implementation; direct-only '
@@ -10,8 +11,9 @@ PROP = {'module': 'GolibsVerif.Theorems.C02',
              'functions by std.* ops every run',
              'unexported helpers reached through netutil/export_verif.go (build tag verif)'],
  'assumptions': ['rune loops over digits/hex digits are modelled byte-wise (equivalent because the accepted characters are ASCII)'],
- 'level_text': 'Lean theorems: the allocation-free hostname validators equal their error-returning counterparts for every input and every '
-               'idna behaviour; the IPv4 validator equals the netip IPv4 parser model for every string; IPv6/zone/port agreement is '
-               'established by correspondence plus exhaustive enumeration (partial, see level_note)',
- 'level_note': 'IPv6 scanner equivalence with netip.parseIPv6 is NOT yet a theorem: it is checked by exhaustive enumeration over an '
-               '11-letter alphabet and a grammar-directed stream on every run; trusted: Lean kernel, netip model, correspondence'}
+ 'level_text': 'Lean theorems, for every byte string: IsValidIPString = success of the netip.ParseAddr model, IsValidIPPortString = '
+               'success of the netip.ParseAddrPort model (IPv4 automaton invariant, IPv6 scanner simulation, zone/dispatch/port lemmas), '
+               'IsValidHostname(Label) = ValidateHostname(Label) == nil for every idna behaviour; none of them panics. Models tied to the '
+               'Go code and to the real net/netip by differential correspondence plus exhaustive enumeration on every run',
+ 'level_note': 'all four equivalences are theorems at full strength over the models; trusted: Lean kernel, the Lean model of net/netip '
+               '(sampled against the real parser every run), the differential correspondence of the golibs models'}
